@@ -114,3 +114,13 @@ def assumptions(pid, res):
 # properties whose machinery is not finished yet (kept out of `checks` until their obligations are discharged)
 NOT_YET = {p: 'not claimed yet: contracts for this property are still being built in this session (see DESIGN.md section 7 for the plan)'
            for p in () if p not in PROPS}
+
+
+def c01_side(name):
+    """sender-side / receiver-side classification of a function under contract (C01 pairing rule)"""
+    n = name
+    if re.search(r'OpModeS|get_sender_id_keypair|encap_with_eph|encap_body|setup_sender|seal', n):
+        return 'S'
+    if re.search(r'OpModeR|get_pk_sender_id|decap_body|setup_receiver|open', n):
+        return 'R'
+    return 'shared'
